@@ -168,10 +168,12 @@ def c09_declarations(tier):
 # C10: bitenum declarations   decl = (size_str, discs(tuple, declaration order), exh, sep, cfg_index|None, malformed|None)
 
 def emit_enum_decl(d, name="E"):
-    size, ds, exh, sep, cfg, mal = d
+    size, ds, exh, sep, cfg, mal = d[:6]
+    first = len(d) > 6 and d[6]
     a = size
     if exh is not None:
-        a += f", exhaustive = {exh}" if sep == '=' else f", exhaustive: {exh}"
+        ex = f"exhaustive = {exh}" if sep == '=' else f"exhaustive: {exh}"
+        a = f"{ex}, {a}" if first else f"{a}, {ex}"
     vs = []
     for i, x in enumerate(ds):
         pre = '#[cfg(all())] ' if cfg == i else ''
@@ -196,8 +198,12 @@ def emit_enum_decl(d, name="E"):
     return f"{k}#[bitenum({a})] {rep}pub enum {name} {{ {', '.join(vs)} }}"
 
 
+def enum_decl_documented_order(d):
+    return not (len(d) > 6 and d[6])
+
+
 def enum_decl_valid(d):
-    size, ds, exh, sep, cfg, mal = d
+    size, ds, exh, sep, cfg, mal = d[:6]
     if not (size.startswith('u') and size[1:].isdigit()):
         return False
     if mal in ('deaddup_front', 'deaddup_back'):
@@ -260,6 +266,8 @@ def c10_declarations(tier):
         for ds in [(0,), (0, 1)]:
             for exh, sep in EXH[:4]:
                 out.append((size, ds, exh, sep, None, None))
+    # the same declarations with `exhaustive` written before the storage type (undocumented order: only "invalid => rejected" is demanded)
+    out += [d + (True,) for d in out[::5] if d[2] is not None]
     seen, res = set(), []
     for d in out:
         if d not in seen:
